@@ -328,9 +328,10 @@ def vlog_torn_header(lengths=(1, 3, 4, 6, 9, 10, 15, 30)):
 
 
 SCENARIOS = {
-    # class name -> (property, scenario)
-    "recovery_piece_part_of_txn_wal_unsynced": ("C03", piece),
-    "recovery_nonlast_split_marked_flushed": ("C02", nonlast),
+    # class name -> (property or properties, scenario); the two recovery-in-pieces scenarios are crashes INSIDE recovery:
+    # they lose an acknowledged commit (C02), leave a state that is no prefix (C03) and make two opens differ (C07)
+    "recovery_piece_part_of_txn_wal_unsynced": (("C03", "C07"), piece),
+    "recovery_nonlast_split_marked_flushed": (("C02", "C03", "C07"), nonlast),
     "vlog_rotated_file_not_fsynced": ("C02", vlog_rotated),
     "acks_behind_torn_first_record_lost": ("C02", torn_first),
     "flush_before_relog_part_of_txn": ("C03", relog_race),
@@ -344,7 +345,7 @@ def directed(pid, res):
     kf = C.known_findings(pid)
     ran = {}
     for cls, (prop, fn) in SCENARIOS.items():
-        if prop != pid:
+        if pid not in ((prop,) if isinstance(prop, str) else prop):
             continue
         hit, text = fn()
         ran[cls] = hit
